@@ -29,7 +29,6 @@ import (
 	"encoding/hex"
 	"encoding/json"
 	"fmt"
-	"io"
 	"math/rand"
 	"net/http"
 	"net/http/httptest"
@@ -64,6 +63,7 @@ type crashStats struct {
 	SameAsAfter   int            `json:"snapshots_equal_after"`
 	Duplicate     int            `json:"snapshots_duplicate"`
 	ObsRequests   int            `json:"observation_requests"`
+	NotJudged     int            `json:"not_judged_restores_named_blob"`
 	Monitors      map[string]int `json:"monitor_hits"`
 	Kinds         map[string]int `json:"points_by_call"`
 	RecoveredKind map[string]int `json:"recovered_by_request_kind"`
@@ -571,6 +571,16 @@ func (c *Crash) apply(line string) string {
 		mex, mconv, _, mok = h.srv.VerifDirState(repo)
 		nsess = h.srv.VerifUploadCount(repo)
 	}
+	known := map[string]bool{}
+	if op == "GC" && h.mon.routable(h, repo) {
+		var ds []string
+		for d := range df.blobs {
+			ds = append(ds, d)
+		}
+		for i, k := range h.srv.VerifIndexKnows(repo, ds) {
+			known[ds[i]] = k
+		}
+	}
 	var sessBefore *sessShadow
 	if op == "UPATCH" || op == "UPUT" || op == "UDEL" {
 		if ss := h.mon.sess[sessNum(t[2])]; ss != nil {
@@ -639,8 +649,13 @@ func (c *Crash) apply(line string) string {
 	facts := []string{op, "repo=" + repo, "st=" + status, "code=" + code, "ok=" + b01(mok), "mex=" + b01(mex), "mconv=" + b01(mconv),
 		"D=" + b01(df.D), "L=" + b01(df.L), "I=" + b01(df.I), "U=" + b01(df.U), "ann=" + df.ann, "nsess=" + strconv.Itoa(nsess),
 		"refen=" + b01(*h.conf.API.Referrer.Enabled), "ro=" + b01(*h.conf.Storage.ReadOnly), "sub=" + b01(df.sub)}
-	facts = append(facts, c.kindFacts(op, t[1:], repo, status, code, df, dfA, sessBefore, manBefore, nmanA, nsess, inoBefore != inoAfter)...)
-	c.emit(fmt.Sprintf("st=%s fsops=[%s]", status, strings.Join(trace, ";")), strings.Join(facts, " "))
+	facts = append(facts, c.kindFacts(op, t[1:], repo, status, code, df, dfA, sessBefore, manBefore, nmanA, nsess, inoBefore != inoAfter, known)...)
+	if op == "UPOST" && kv(t[1:], "mount") != "" && kv(t[1:], "from") != "" {
+		// a mount attempt (two repositories, fall-back to a plain upload) is not modelled: trace recorded, not compared
+		c.emit(fmt.Sprintf("st=%s fsops=? raw=[%s]", status, strings.Join(trace, ";")), strings.Join(facts, " "))
+	} else {
+		c.emit(fmt.Sprintf("st=%s fsops=[%s]", status, strings.Join(trace, ";")), strings.Join(facts, " "))
+	}
 	// ---- recover every distinct crash state
 	c.checkSnaps(op, t[1:], repo, lineNo, pre, post, manBefore)
 	for _, s := range c.snaps {
@@ -728,7 +743,7 @@ func canonTrace(raw []string, roles map[string]string) []string {
 
 // kindFacts: what the model needs to know about this request beyond the common facts (all taken from the request line,
 // the answer, the shadow of the monitors and the directory before / after - never from the recorded trace)
-func (c *Crash) kindFacts(op string, a []string, repo, status, code string, df, dfA diskFacts, sess *sessShadow, manBefore map[string]*manShadow, nmanA, nsess int, replaced bool) []string {
+func (c *Crash) kindFacts(op string, a []string, repo, status, code string, df, dfA diskFacts, sess *sessShadow, manBefore map[string]*manShadow, nmanA, nsess int, replaced bool, known map[string]bool) []string {
 	h := c.h
 	var f []string
 	blobFacts := func(prefix, real string) {
@@ -846,7 +861,14 @@ func (c *Crash) kindFacts(op string, a []string, repo, status, code string, df, 
 		mod := replaced
 		switch {
 		case !dfA.I:
+			// the index file is gone: it was saved before iff entries were dropped, or a removed blob was known to the cached
+			// index (a recorded child)
 			mod = df.nent > 0
+			for d := range df.blobs {
+				if !dfA.blobs[d] && known[d] {
+					mod = true
+				}
+			}
 		case conv:
 			mod = string(ea) != string(eb)
 		}
@@ -959,6 +981,13 @@ func (c *Crash) checkSnaps(op string, a []string, repo string, lineNo int, pre, 
 			if op == "GC" && r == repo && between(ao, ro, po) {
 				continue // a collection interrupted half way: every retained item intact, nothing new
 			}
+			if r == repo && c.restoresNamedBlob(pre, post, repo) {
+				// the request re-creates a blob that the repository already names (an index entry or a child whose blob was
+				// deleted through the blob API): the premise "every entry resolves" does not hold before the request, the
+				// content-before-index order necessarily makes the old entry resolvable first.  Not judged.
+				c.st.NotJudged++
+				continue
+			}
 			name := "C09.not-atomic"
 			if r == repo {
 				name += c.cause(op, a, repo, po, ao, ro, manBefore)
@@ -1052,6 +1081,39 @@ func (c *Crash) ackLost(pre, post, rec *repoObs) []string {
 	}
 	sort.Strings(out)
 	return out
+}
+
+// restoresNamedBlob: some blob file that exists after the request but not before is named (by its encoded digest) in
+// index.json or in a blob of the repository as it was before the request
+func (c *Crash) restoresNamedBlob(pre, post, repo string) bool {
+	before, after := readDiskFacts(pre, repo), readDiskFacts(post, repo)
+	var fresh []string
+	for d := range after.blobs {
+		if !before.blobs[d] {
+			fresh = append(fresh, strings.SplitN(d, ":", 2)[1])
+		}
+	}
+	if len(fresh) == 0 {
+		return false
+	}
+	var texts []string
+	if b, err := os.ReadFile(filepath.Join(pre, repo, "index.json")); err == nil {
+		texts = append(texts, string(b))
+	}
+	for d := range before.blobs {
+		p := strings.SplitN(d, ":", 2)
+		if b, err := os.ReadFile(filepath.Join(pre, repo, "blobs", p[0], p[1])); err == nil && len(b) < 1<<20 {
+			texts = append(texts, string(b))
+		}
+	}
+	for _, hx := range fresh {
+		for _, t := range texts {
+			if strings.Contains(t, hx) {
+				return true
+			}
+		}
+	}
+	return false
 }
 
 // between: every item of lo is in mid unchanged, every item of mid is in hi unchanged
@@ -1253,5 +1315,3 @@ func runCrash(h *H, mode string, seed, n int, impl *bufio.Writer) int {
 	opsF.Close()
 	return 0
 }
-
-var _ = io.EOF
